@@ -217,6 +217,31 @@ Example C15_known_F7b :
   parse_theory_toks (print_theory false t) = PR_ok [FBin CImp (FAtomic (AAtom "q" [])) (FNot (FAtomic (AAtom "p" [])))].
 Proof. vm_compute. repeat split. Qed.
 
+(* F7b is INSIDE the image of the parser, also behind opening parentheses (audit A19: [keyword_ident]
+   looks through them and that is exact, not an over-approximation): the accepted text `(notp$i) = 1.`
+   prints as `notp$i = 1.`, which is read as `not p$i = 1.` -- a silent change of meaning. *)
+Example C15_F7b_in_image :
+  match parse_theory_str "(notp$i) = 1." with
+  | PR_ok t =>
+    wf_theory t = true /\ known_class_theory t = Some "F7b" /\
+    match parse_theory_str (show_theory t) with
+    | PR_ok t' => t' <> t /\ t' = [FNot (FAtomic (ACmp (GInt (IFun "p")) [mkguard REq (GInt (INum 1))]))]
+    | _ => False
+    end
+  | _ => False
+  end.
+Proof. vm_compute. split; [reflexivity|]. split; [reflexivity|]. split; [discriminate|reflexivity]. Qed.
+
+(* F7c witness (stand-alone formulas only): accepted, well-formed, printed text refused *)
+Example C15_known_F7c :
+  match parse_formula_str "p and exists " with
+  | PR_ok f =>
+    wf_formula f = true /\ known_class f = None /\ known_class_alone f = Some "F7c" /\
+    show_formula f = "p and exists" /\ parse_formula_str (show_formula f) = PR_err
+  | _ => False
+  end.
+Proof. vm_compute. repeat split. Qed.
+
 (* C15-RIMP witness: in the parser image, and the round trip fails (the tree changes) *)
 Example C15_known_RIMP :
   let t := [FBin CRimp (FAtomic (AAtom "p" [])) (FAtomic (ACmp (GInt (INum 1)) [mkguard REq (GInt (INum 1))]))] in
